@@ -1,7 +1,7 @@
 """Rules shared by C03, C08, C09 (and C02): purity of the codec units (R8), definite assignment in SSA form (R9),
 re-establishment of locals in resumable functions, and configuration isolation of codec call sites."""
 import cfg
-from irdb import broken, reg_var_names
+from irdb import broken, reg_var_names, var_roles
 from prov import Prov, strip_casts, strip_ext, addr_key, path_key, render
 
 CODEC_UNITS = ('encode', 'divbwt', 'decode', 'parse', 'crctab')
@@ -342,9 +342,7 @@ def emit_symbol_law(ctx, prog, pfx):
     f = prog.func('decode', 'emit')
     P = Prov(prog, f)
     names = reg_var_names(f)
-
-    def is_a(v):
-        return v[0] == 'reg' and names.get(v[1]) == 'a'
+    A_NAME = var_roles(f, P).get('.rle_avail', 'a')     # the local that counts the symbols still to fetch
     consume_edges = {}      # block -> successor that means "a was non-zero, one symbol consumed"
     for b in f.blocks.values():
         t = b.term
@@ -362,7 +360,7 @@ def emit_symbol_law(ctx, prog, pfx):
         else:
             zero_on_true = not pol
         # the decrement of `a` in this block whose old value is the one tested
-        dec = [i for i in b.insns if i.op == 'add' and i.ops[1] == ('int', -1) and names.get(i.res) == 'a' and
+        dec = [i for i in b.insns if i.op == 'add' and i.ops[1] == ('int', -1) and names.get(i.res) == A_NAME and
                strip_casts(P.expr(i.ops[0])) == core]
         if dec:
             consume_edges[b.name] = t.extra['targets'][1] if zero_on_true else t.extra['targets'][0]
@@ -436,11 +434,15 @@ def emit_state_signatures(ctx, prog, pfx):
     P = Prov(prog, f)
     names = reg_var_names(f)
     FIELD = {'.rle_char': 'c', '.rle_prev': 'd', '.rle_avail': 'a', '.rle_index': 'p', '.rle_crc': 's'}
+    roles = var_roles(f, P)
+    # source names of the locals, by the decoder-state field (or parameter) they are restored from
+    CANON = {roles.get(k_, v_): v_ for k_, v_ in FIELD.items()}
+    CANON[roles.get('*param:buf_sz', 'm')] = 'm'
 
     def base(e, depth=0):
         e = strip_casts(e)
         if e[0] == 'phi':
-            return names.get(e[1], '?')
+            return CANON.get(names.get(e[1], '?'), '?')
         if e[0] == 'load':
             pk = path_key(e[1][2])
             if pk in FIELD:
